@@ -24,6 +24,7 @@ import (
 	"encoding/binary"
 	"encoding/hex"
 	"fmt"
+	"io"
 	"os"
 	"path/filepath"
 	"sort"
@@ -405,12 +406,31 @@ type c09Side struct {
 	snap   string
 }
 
+// c09Layout selects where ReadOnly() stands among the other server options (options are applied in the order given):
+// 0 = only the working directory before it (the layout of every sequence case), 1..3 = first / in the middle / last among
+// all the other options.
+var c09Layout int
+
 func c09Start(readOnly bool) *c09Side {
 	s := &c09Side{root: c09MkTree()}
 	opts := []ServerOption{WithServerWorkingDirectory(s.root)}
-	if readOnly {
+	if c09Layout > 0 {
+		others := []ServerOption{WithServerWorkingDirectory(s.root), WithDebug(io.Discard), WithAllocator(), WithMaxTxPacket(40000), WindowsRootEnumeratesDrives()}
+		at := map[int]int{1: 0, 2: 2, 3: len(others)}[c09Layout]
+		opts = nil
+		for i, o := range others {
+			if i == at && readOnly {
+				opts = append(opts, ReadOnly())
+			}
+			opts = append(opts, o)
+		}
+		if at == len(others) && readOnly {
+			opts = append(opts, ReadOnly())
+		}
+	} else if readOnly {
 		opts = append(opts, ReadOnly())
 	}
+
 	s.sess = bServeOS(opts...)
 	s.snap = c09Snap(s.root)
 	if f, err := s.sess.Exchange(c09Pkt(sshFxpInit, uint32(3))); err != nil || f.typ != sshFxpVersion {
@@ -552,6 +572,12 @@ func init() {
 			res.Case(r.desc)
 			res.Sample(r.desc)
 			c09RunCase(res, []c09Req{r})
+			// the same request with ReadOnly() first, in the middle and last among every other server option
+			for c09Layout = 1; c09Layout <= 3; c09Layout++ {
+				res.Case(fmt.Sprintf("%s [option layout %d]", r.desc, c09Layout))
+				c09RunCase(res, []c09Req{r})
+			}
+			c09Layout = 0
 			done++
 		}
 		c09Bound(res, fmt.Sprintf("all %d single requests (64 pflag sets x 5 targets x 2 attr variants OPEN, 32 attr-flag subsets x 5 targets x 2 value sets SETSTAT, REMOVE/MKDIR/RMDIR x 5, RENAME/SYMLINK/posix-rename/hardlink x 25, stat family/opendir/realpath/readlink x 10, statvfs, handle requests without handle, fsync, unknown extended)", len(reqs)), done, (int64(len(reqs))+int64(c.NShards)-1)/int64(max(c.NShards, 1)))
